@@ -233,18 +233,18 @@ def name_pattern(ck, S, fn, rid, date_is_class):
     return tpls
 
 
-def ordering(ck, S, victim_is_first):
+def ordering(ck, S, victim_is_first, R4="C06-O4", R5="C06-O5"):
     F = ck.facts
     fr = S.m["findRotatedFiles"]
     g = S.g(fr)
     sorts = [n for n in fr.calls() if name_is(strip_tmpl(n.get("callee") or ""), ("std::sort", "std::stable_sort"))]
     if len(sorts) != 1:
-        ck.ob("C06-O4", sitestr(fr), False if not sorts else None, "findRotatedFiles sorts %d times" % len(sorts), key="findRotatedFiles|no-sort")
+        ck.ob(R4, sitestr(fr), False if not sorts else None, "findRotatedFiles sorts %d times" % len(sorts), key="findRotatedFiles|no-sort")
         return
     st = sorts[0]
     lam = [a for a in st["args"] if skip_copies(a).get("k") == "lambda"]
     if not lam:
-        ck.ob("C06-O4", sitestr(fr, st), None, "no comparator lambda (default order on names puts index 10 before 9)")
+        ck.ob(R4, sitestr(fr, st), None, "no comparator lambda (default order on names puts index 10 before 9)")
         return
     lf = F.fns.get(skip_copies(lam[0])["fn"])
     ck.require(lf is not None, "comparator body not found")
@@ -258,14 +258,14 @@ def ordering(ck, S, victim_is_first):
         if is_ref_to(base, a_decl) or is_ref_to(base, b_decl):
             fields.setdefault(n["name"].split("::")[-1], n["name"])
     if time_calls and not fields:
-        ck.ob("C06-O5", sitestr(lf, time_calls[0]), False, "rotated files are ordered by %s only: rotations within one timestamp tick tie and the name pre-sort puts index 10 before 9, so newer files can be deleted first" % describe(time_calls[0])[:60],
+        ck.ob(R5, sitestr(lf, time_calls[0]), False, "rotated files are ordered by %s only: rotations within one timestamp tick tie and the name pre-sort puts index 10 before 9, so newer files can be deleted first" % describe(time_calls[0])[:60],
               key="findRotatedFiles|mtime-only-order")
         return
     if time_calls:
-        ck.ob("C06-O5", sitestr(lf, time_calls[0]), None, "comparator mixes modification time and name fields; idiom not recognised")
+        ck.ob(R5, sitestr(lf, time_calls[0]), None, "comparator mixes modification time and name fields; idiom not recognised")
         return
     if not fields:
-        ck.ob("C06-O4", sitestr(lf), None, "comparator reads no element field; idiom not recognised")
+        ck.ob(R4, sitestr(lf), None, "comparator reads no element field; idiom not recognised")
         return
     # element provenance: fields of the element struct <- captured groups
     etype = lf.params[0]["type"].replace("const ", "").replace(" &", "").strip()
@@ -297,47 +297,49 @@ def ordering(ck, S, victim_is_first):
     for nm in fields:
         vs = srcs.get(nm, [])
         if len(vs) != 1:
-            ck.ob("C06-O4", sitestr(fr), None, "field %s of the sort element is filled at %d sites" % (nm, len(vs)))
+            ck.ob(R4, sitestr(fr), None, "field %s of the sort element is filled at %d sites" % (nm, len(vs)))
             return
         v = skip_copies(vs[0])
         cap = [x for x in walk(v) if is_call(x, "QRegularExpressionMatch::captured")]
         if len(cap) != 1:
-            ck.ob("C06-O4", sitestr(fr, v), None, "field %s is not taken from a captured group: %s" % (nm, describe(v)))
-            return
+            # not part of the name's (date, index): may only serve as a tie-breaker behind them (decided by the evaluation below)
+            role[nm] = "tie"
+            continue
         gi = const_int(cap[0]["args"][0])
         kinds = grp_kind.get(gi, set())
         if kinds == {"date"}:
             role[nm] = "date"
             okt = ftypes[nm] in ("QString", "QDate", "const QString", "QByteArray")
-            ck.ob("C06-O4", sitestr(fr, v), okt and not lossy_wrappers(v), "%s = captured date (group %d), compared as %s" % (nm, gi, ftypes[nm]), key="findRotatedFiles|date-field")
+            ck.ob(R4, sitestr(fr, v), okt and not lossy_wrappers(v), "%s = captured date (group %d), compared as %s" % (nm, gi, ftypes[nm]), key="findRotatedFiles|date-field")
         elif kinds == {"index"}:
             role[nm] = "index"
             numeric = ftypes[nm] in ("int", "long", "long long", "unsigned int", "qint64", "qlonglong", "unsigned long", "unsigned long long") and any(is_call(x, ("QString::toInt", "QString::toLongLong", "QString::toUInt", "QString::toLong", "QString::toULongLong")) for x in walk(v))
-            ck.ob("C06-O4", sitestr(fr, v), numeric, "%s = numeric value of the captured index (group %d)" % (nm, gi) if numeric else
+            ck.ob(R4, sitestr(fr, v), numeric, "%s = numeric value of the captured index (group %d)" % (nm, gi) if numeric else
                   "the index is compared as %s %s: \"10\" sorts before \"9\"" % (ftypes[nm], describe(v)), key="findRotatedFiles|index-not-numeric")
         else:
-            ck.ob("C06-O4", sitestr(fr, v), None, "field %s comes from group %s (%s)" % (nm, gi, kinds))
+            ck.ob(R4, sitestr(fr, v), None, "field %s comes from group %s (%s)" % (nm, gi, kinds))
             return
-    if set(role.values()) != {"date", "index"}:
-        ck.ob("C06-O5", sitestr(lf), False, "the ordering key is %s: it does not contain both the date and the index of the rotated name, so it cannot identify rotation order" % sorted(role.values()),
+    if set(role.values()) - {"tie"} != {"date", "index"}:
+        ck.ob(R5, sitestr(lf), False, "the ordering key is %s: it does not contain both the date and the index of the rotated name, so it cannot identify rotation order" % sorted(role.values()),
               key="findRotatedFiles|key-incomplete")
         return
-    ck.ob("C06-O5", sitestr(lf), True, "the ordering key is (date, index) taken from the name that rotate() assigns in rotation order")
+    ck.ob(R5, sitestr(lf), True, "the ordering key is (date, index) taken from the name that rotate() assigns in rotation order")
     # exhaustive evaluation of the comparator on a small domain
     gl = Graph(lf)
-    dom = [(d, i) for d in (1, 2) for i in (9, 10)]
+    ties = (0, 1) if "tie" in role.values() else (0,)
+    dom = [(d, i, t) for d in (1, 2) for i in (9, 10) for t in ties]
     asc = desc = True
     unknown = False
-    for (ad, ai), (bd, bi) in itertools.product(dom, dom):
-        def leaf(n, ad=ad, ai=ai, bd=bd, bi=bi):
+    for (ad, ai, at), (bd, bi, bt) in itertools.product(dom, dom):
+        def leaf(n, ad=ad, ai=ai, bd=bd, bi=bi, at=at, bt=bt):
             if n.get("k") == "member" and n.get("dk") == "field":
                 base = skip_copies(n.get("base"))
                 nm = n["name"].split("::")[-1]
                 if nm in role:
                     if is_ref_to(base, a_decl):
-                        return ad if role[nm] == "date" else ai
+                        return {"date": ad, "index": ai, "tie": at}[role[nm]]
                     if is_ref_to(base, b_decl):
-                        return bd if role[nm] == "date" else bi
+                        return {"date": bd, "index": bi, "tie": bt}[role[nm]]
             if n.get("k") == "call" and n.get("op") in ("<", ">", "<=", ">=", "==", "!=") and len(n.get("args", [])) == 2:
                 def ev(x):
                     # std::tie / make_tuple / pair of key fields compare lexicographically, like Python tuples
@@ -364,23 +366,25 @@ def ordering(ck, S, victim_is_first):
             unknown = True
             break
         got = bool(vals.pop())
+        if (ad, ai) == (bd, bi):
+            continue      # same (date, index): x.log next to x.log.gz - any tie-breaker will do
         if got != ((ad, ai) < (bd, bi)):
             asc = False
         if got != ((ad, ai) > (bd, bi)):
             desc = False
     if unknown:
-        ck.ob("C06-O4", sitestr(lf), None, "comparator could not be evaluated on the symbolic domain")
+        ck.ob(R4, sitestr(lf), None, "comparator could not be evaluated on the symbolic domain")
         return
-    ck.ob("C06-O4", sitestr(lf), asc or desc, "comparator is the strict lexicographic order on (date, index): 16/16 pairs (%s)" % ("ascending" if asc else "descending") if (asc or desc) else
-          "comparator is not a lexicographic order on (date, index)", key="findRotatedFiles|comparator")
+    ck.ob(R4, sitestr(lf), asc or desc, "comparator is the strict lexicographic order on (date, index)%s: %d/%d pairs (%s)" % (", other fields only break ties" if len(ties) > 1 else "", len(dom) ** 2, len(dom) ** 2, "ascending" if asc else "descending") if (asc or desc) else
+          "comparator is not the lexicographic order on (date, index): a file of a later day / higher index can be ordered before an older one and is then deleted first", key="findRotatedFiles|comparator")
     if asc or desc:
         oldest_first = asc
         ok = (victim_is_first == oldest_first)
-        ck.ob("C06-O4", sitestr(S.m["removeOldFiles"]), ok, "the victim is the oldest element (%s of an %s list)" % ("first" if victim_is_first else "last", "ascending" if asc else "descending") if ok else
+        ck.ob(R4, sitestr(S.m["removeOldFiles"]), ok, "the victim is the oldest element (%s of an %s list)" % ("first" if victim_is_first else "last", "ascending" if asc else "descending") if ok else
               "the victim is the NEWEST rotated file (%s of an %s list)" % ("first" if victim_is_first else "last", "ascending" if asc else "descending"), key="removeOldFiles|victim-newest")
     # the sorted list is what is returned (paths in that order)
     rs = returns(fr)
-    ck.ob("C06-O4", sitestr(fr), len(rs) == 1, "single return of the ordered list", key="findRotatedFiles|return")
+    ck.ob(R4, sitestr(fr), len(rs) == 1, "single return of the ordered list", key="findRotatedFiles|return")
 
 
 def counted_prefix(fn, remove_call, victim):
@@ -408,3 +412,16 @@ def counted_prefix(fn, remove_call, victim):
     if not (okinit and okcond and okinc) or other_writes or list_writes:
         return None
     return {"list": lst, "bound": cond.get("rhs"), "cond": cond}
+
+
+def retention_victim_is_oldest(ck, S, RID):
+    """for other properties: retention removes the oldest rotated file by (date, index) - if it removed the newest one of a day,
+    that day's highest index would be free again and the next rotation would reuse the name"""
+    ro = S.m["removeOldFiles"]
+    removes = [n for n in ro.calls() if destructive_kind(n) == "remove"]
+    ck.require(len(removes) == 1, "removeOldFiles has %d remove calls" % len(removes))
+    victim = deref_local(ro, skip_copies(removes[0]["args"][0]))
+    first_end = is_call(victim, ("first", "constFirst", "front", "takeFirst"))
+    if is_call(victim, ("at", "operator[]", "value")) or (isinstance(victim, dict) and victim.get("k") == "call" and victim.get("op") == "[]"):
+        first_end = True
+    ordering(ck, S, first_end, RID, RID)
